@@ -46,6 +46,10 @@ type R struct {
 	Shape      string         // optional: shape key used for distinctness in addition to the hash
 	Known      []*Violation   // known findings hit by this run (run continued)
 	IsKnown    func(v *Violation) bool
+	// RuntimeRandom is set by a run whose course depends on randomness no seed controls (goProbe
+	// iterating a Go map of several captures): its replay is retried and it takes no part in the
+	// determinism self-test.
+	RuntimeRandom bool
 }
 
 // NewR creates a run context.
